@@ -13,7 +13,7 @@ RULE = ("2-3 driver objects of any mix of RF24, FakeBLE, RF24Network, RF24Networ
         "after the constructor is the first established state), and PWR_UP=0 and CE low after "
         "every __exit__. Non-trivial: a re-entry was compared after another object had changed "
         "at least one register; distinct = distinct (class mix, block order, calls).")
-RULE += (" Later rounds added: a focused pipe/address alphabet, nested with-blocks, print_details()/print_pipes(), carrier-wave tests with a reader in between (plus chips), network objects changing their address bytes in place (clause address_bytes_private).")
+RULE += (" Later rounds added: a focused pipe/address alphabet, nested with-blocks, print_details()/print_pipes(), carrier-wave tests with a reader in between (plus chips), network objects changing their address bytes in place (clause address_bytes_private), blocks left by exceptions of several classes (OSError family included), two objects configured from one shared list of static lengths.")
 REQUIRED = {"reentry_compare": 2000, "exit_state": 2000, "foreign_change_seen": 500}
 BUDGET = {"quick": 480, "thorough": 900}
 
@@ -101,6 +101,16 @@ def gen_cases(ctx):
                               rng2.choice([["suffix_inplace", rng2.randrange(6), rng2.randrange(1, 255)],
                                            ["prefix_inplace", rng2.randrange(1, 255)]]))
             blocks.append(blk)
+        rf_like = [x for x in range(k) if classes[x] in ("RF24", "FakeBLE")]
+        if len(rf_like) >= 2 and rng2.random() < 0.5:
+            # the application configures two objects from ONE list object of six static lengths; one
+            # of them later changes single pipes through the function form - the other's business it is not
+            a_, b_ = rng2.sample(rf_like, 2)
+            blocks.append([a_, [["payload_length_shared"]]])
+            blocks.append([b_, [["payload_length_shared"], ["set_payload_length", rng2.choice([32, 20, 5]), rng2.randrange(6)],
+                                ["set_payload_length", rng2.choice([17, 1]), rng2.randrange(6)]]])
+            blocks.append([a_, []])
+            blocks.append([b_, []])
         if carrier:
             # (non-plus chips: stop_carrier_wave() leaves CONFIG's IRQ mask to the documented `with`
             # restore - C03's assumption list - so the end-of-block snapshot is not the reference there)
@@ -154,6 +164,8 @@ def apply(obj, cls, op, rig):
             obj.address_suffix[args[0]] = args[1]
         elif name == "prefix_inplace":
             obj.address_prefix[0] = args[0]
+        elif name == "payload_length_shared":
+            obj.payload_length = rig.__dict__.setdefault("shared_lengths", [8, 9, 10, 11, 12, 13])
         else:
             cfg_ref.apply_to_driver(obj, op)
     except (NotImplementedError, ValueError, IndexError, AttributeError, TypeError):
@@ -233,7 +245,9 @@ def run_case(ctx, case):
                 o2.__exit__(None, None, None)
                 ctx.count("nested_blocks")
             if (bi + case["seed"]) % 4 == 0:
-                o.__exit__(ValueError, ValueError("raised inside the block"), None)  # left by an exception
+                # left by an exception (of the application, of the bus, of the operating system ...)
+                et = [ValueError, TimeoutError, FileNotFoundError, RuntimeError, OSError, KeyboardInterrupt][(case["seed"] >> 3) % 6]
+                o.__exit__(et, et("raised inside the block"), None)
             else:
                 o.__exit__(None, None, None)
             # address bytes are per object: what this block changed in place shows in no other object
